@@ -1,4 +1,6 @@
 import Aurora.Lemmas.Depth
+import Aurora.Lemmas.DepthAtomic
+import Aurora.Generated.KadDepthLocks
 import Aurora.Model.Kad
 /-!
 # C22 — Neighbourhood depth is consistent with the peer set
@@ -138,6 +140,117 @@ theorem C22_depth_current (base : Addr) (binMax : Nat) (boot : Bool) (static : L
     | nil => intro k h; exact h
     | cons ev evs ih => intro k h; exact ih _ (C22_depth_current_step k ev h)
   exact gen evs _ (C22_depth_current_new base binMax boot static)
+
+/-- `C22_depth_current` from any Kad whose stored depth is current -/
+theorem C22_depth_current_from (k : Kad) (h : DepthCurrent k) (evs : List Ev) :
+    DepthCurrent (evs.foldl (fun k ev => (k.apply ev).1) k) := by
+  induction evs generalizing k with
+  | nil => exact h
+  | cons ev evs ih => exact ih _ (C22_depth_current_step k ev h)
+
+/-! ### concurrent notifications: every depth update is an atomic compute-and-store
+
+The event handlers run on different goroutines (connection handlers, the manage loop's workers,
+the reachability prober, the storage-radius updater).  The sequential statements above lift to
+concurrent executions because of ONE discipline, which the extractor reads off
+`pkg/topology/kademlia/*.go` on every run (`Aurora/Generated/KadDepthLocks.lean`,
+harness/cmd/extract/kad_depth_locks.go): every store to `Kad.depth` is
+`depthMu.Lock(); k.depth = recalcDepth(k.connectedPeers, k.radius, k.peerFilter); depthMu.Unlock()`
+— the recalculation is evaluated inside the same write-locked region as the store, from the live
+peer set and a radius read in that region. -/
+
+section Concurrent
+open Aurora.Generated.KadDepthLocks
+open Aurora.DepthAtomic (Shape Pc St Reach)
+
+/-- a store row describes an atomic compute-and-store: it happens in a write-locked region, the
+value stored is a `recalcDepth(x.connectedPeers, <radius>, x.peerFilter)` call evaluated in that same
+region, and the radius passed was read in that same region -/
+def atomicStore (s : Store) : Bool :=
+  decide (s.lock.mode = .w) && decide (s.lock.region ≠ 0) && decide (s.rhs ≠ .other) &&
+  decide (s.compute = s.lock) && decide (s.radius = s.lock) && s.peersLive && s.filterOk
+
+/-- **static obligation** (by evaluation of the regenerated table): there is at least one depth
+store; every depth store is a locked compute-and-store (`atomicStore`); every other write of
+`depth` / `radius` is write-locked, every read is at least read-locked, no address of the two
+fields is taken; and `depthMu` is used in no way the extractor does not understand.
+The seeded change C22-1 (read the radius under `RLock`, recalculate with no lock held, `Lock` only to
+store) produces a row `⟨"updateDepth", …, ⟨.w, _⟩, .local, ⟨.free, 0⟩, ⟨.r, _⟩, …⟩` and this fails. -/
+theorem C22_depth_update_atomic :
+    stores ≠ [] ∧
+    (∀ s ∈ stores, atomicStore s = true) ∧
+    (∀ a ∈ accesses, a.kind = .write → a.lock.mode = .w) ∧
+    (∀ a ∈ accesses, a.kind = .read → a.lock.mode = .w ∨ a.lock.mode = .r) ∧
+    (∀ a ∈ accesses, a.kind ≠ .other) ∧
+    mutexOther = [] := by
+  decide
+
+/-- what `recalcDepth` is applied to when a handler recalculates: the current model state -/
+def depthOf (k : Kad) : Nat := recalcDepth k.params (k.flags k.connected) k.radius
+
+theorem depthCurrent_iff (k : Kad) (d : Nat) : DepthCurrent { k with depth := d } ↔ d = depthOf k :=
+  Iff.rfl
+
+/-- **interleaving lemma, instantiated.**  Threads = notifications; thread `i` runs the update site
+`site i` of the extracted table and applies an arbitrary change `chg i` to the peer set /
+reachability / radius (outside the mutex, or inside it — `Shape.atomicIn` — as `SetRadius` does).
+A thread may behave like a split update (`Shape.split`: compute unlocked, lock only to store) only
+if its site is not an atomic store.  Then, by `C22_depth_update_atomic`, no thread is split, and by
+the quiescence theorem of `Lemmas/DepthAtomic.lean` every reachable state of every interleaving
+in which all notifications have finished has the stored depth equal to `recalcDepth` of the current
+set, reachability and radius: `C22_depth_current` holds for concurrent executions at quiescence.
+(Mutex semantics assumed: `Lock` is enabled only when nobody holds the mutex; see the lemma file.) -/
+theorem C22_concurrent_quiescent_depth_current
+    (site : Nat → Store) (hsite : ∀ i, site i ∈ stores)
+    (shape : Nat → Shape) (hshape : ∀ i, shape i = .split → atomicStore (site i) = false)
+    (chg : Nat → Kad → Kad) (k0 : Kad) (pc0 : Nat → Pc) (h0 : ∀ i, pc0 i = .start ∨ pc0 i = .done)
+    (s : St Kad) (hr : Reach depthOf chg shape k0 pc0 s) (hq : ∀ i, s.pc i = .done) :
+    DepthCurrent { s.sh with depth := s.depth } := by
+  have hs : ∀ i, shape i ≠ .split := by
+    intro i hi
+    have := C22_depth_update_atomic.2.1 (site i) (hsite i)
+    rw [hshape i hi] at this
+    cases this
+  exact (depthCurrent_iff _ _).2 (Aurora.DepthAtomic.quiescent_current depthOf chg shape hs h0 hr hq)
+
+/-- … and the quiescent outcome is the outcome of a *sequential* run: when thread `i` delivers the
+model event `ev i`, the final peer set / reachability / radius are those of the sequential model run
+over the events in the order `s.log` in which their changes were applied, `s.log` holds exactly
+the notifications that took part, and the final stored depth is the depth the sequential model
+(`C22_depth_current`) ends with for that order. -/
+theorem C22_concurrent_equals_sequential
+    (site : Nat → Store) (hsite : ∀ i, site i ∈ stores)
+    (shape : Nat → Shape) (hshape : ∀ i, shape i = .split → atomicStore (site i) = false)
+    (ev : Nat → Ev) (k0 : Kad) (hk0 : DepthCurrent k0)
+    (pc0 : Nat → Pc) (h0 : ∀ i, pc0 i = .start ∨ pc0 i = .done)
+    (s : St Kad) (hr : Reach depthOf (fun i k => (k.apply (ev i)).1) shape k0 pc0 s)
+    (hq : ∀ i, s.pc i = .done) :
+    (∀ i, i ∈ s.log ↔ pc0 i = .start) ∧
+    s.sh = (s.log.map ev).foldl (fun k e => (k.apply e).1) k0 ∧
+    s.depth = ((s.log.map ev).foldl (fun k e => (k.apply e).1) k0).depth := by
+  have hsh : s.sh = (s.log.map ev).foldl (fun k e => (k.apply e).1) k0 := by
+    rw [Aurora.DepthAtomic.sh_eq_fold_log _ _ _ hr, List.foldl_map]
+  refine ⟨Aurora.DepthAtomic.log_exact _ _ _ h0 hr hq, hsh, ?_⟩
+  have hc := C22_concurrent_quiescent_depth_current site hsite shape hshape _ k0 pc0 h0 s hr hq
+  have hseq := C22_depth_current_from k0 hk0 (s.log.map ev)
+  rw [depthCurrent_iff] at hc
+  rw [hc, hsh]
+  exact hseq.symm
+
+/-- the hypothesis "no split update" is needed: `Lemmas/DepthAtomic.split_breaks` is a concrete
+interleaving of one split and one atomic event that ends, at quiescence, with a stale depth -/
+example : ∃ s : St Nat, Reach id (fun i _ => i + 1) (fun i => if i = 0 then .split else .atomic) 0
+    (fun i => if i < 2 then .start else .done) s ∧ (∀ i, s.pc i = .done) ∧ s.depth ≠ id s.sh :=
+  Aurora.DepthAtomic.split_breaks
+
+/-- hypotheses of the two theorems are satisfiable: the table is not empty and every row can be a
+thread's site -/
+example : ∃ site : Nat → Store, ∀ i, site i ∈ stores :=
+  match h : stores with
+  | [] => absurd h C22_depth_update_atomic.1
+  | x :: _ => ⟨fun _ => x, fun _ => by simp⟩
+
+end Concurrent
 
 /-! ### non-vacuity / regression examples (thresholds 3 / 4) -/
 
